@@ -1384,6 +1384,12 @@ def _decode_headers(headers, encoding):
         assert isinstance(header, HeaderTuple)
 
         name, value = header
-        name = name.decode(encoding)
-        value = value.decode(encoding)
+        try:
+            name = name.decode(encoding)
+            value = value.decode(encoding)
+        except UnicodeDecodeError:
+            raise ProtocolError(
+                "Received header field that is not valid %s: %r" %
+                (encoding, header)
+            )
         yield header.__class__(name, value)
